@@ -4173,6 +4173,8 @@ def Gillespie_simple_contagion(G, spontaneous_transition_graph,
                     
         for nbr in G.neighbors(node):
             #print(status[node],status[nbr])
+            if nbr == node: #a self-loop: a node does not induce transitions in itself
+                continue
             if nbr_induced_transition_graph.has_node((status[node],status[nbr])):# and nbr_induced_transition_graph.degree((status[node],status[nbr])) >0:
                 for transition in nbr_induced_transition_graph.edges((status[node],status[nbr])):
                     potential_transitions[transition].update((node, nbr), weight_increment = get_weight[transition][(node, nbr)])
@@ -4256,6 +4258,8 @@ def Gillespie_simple_contagion(G, spontaneous_transition_graph,
                 for nbr in G.neighbors(modified_node):
                     #remove edge from any induced lists
                     #add edge to any induced lists
+                    if nbr == modified_node: #self-loop
+                        continue
 
                     nbr_status = status[nbr]
                     
@@ -4268,6 +4272,8 @@ def Gillespie_simple_contagion(G, spontaneous_transition_graph,
                 for pred in G.predecessors(modified_node):
                     #remove edge from any induced lists
                     #add edge to any induced lists
+                    if pred == modified_node: #self-loop
+                        continue
 
                     pred_status = status[pred]
                     if (pred, modified_node) not in get_weight[transition]:
@@ -4280,6 +4286,8 @@ def Gillespie_simple_contagion(G, spontaneous_transition_graph,
                 for nbr in G.neighbors(modified_node):
                     #remove edge from any induced lists
                     #add edge to any induced lists
+                    if nbr == modified_node: #self-loop
+                        continue
                     nbr_status = status[nbr]
                     
                     if (modified_node, nbr) not in get_weight[transition]:
